@@ -713,7 +713,13 @@ def gen_itp(rnd):
             if rnd.random() < 0.3:
                 guard = (rnd.choice(['ifdef', 'ifndef']), rnd.choice(['FLEXIBLE', 'POSRES']), rnd.random() < 0.3)
             secs.append({'type': t, 'lines': lines, 'guard': guard})
-        mols.append({'name': 'MOL%d' % mi, 'nrexcl': rnd.randint(1, 3), 'atoms': atoms, 'sections': secs})
+        mol = {'name': 'MOL%d' % mi, 'nrexcl': rnd.randint(1, 3), 'atoms': atoms, 'sections': secs}
+        if rnd.random() < 0.15:
+            # the whole molecule type sits inside a conditional that opens BEFORE its [ moleculetype ] header
+            mol['wrap'] = (rnd.choice(['ifdef', 'ifndef']), rnd.choice(['FLEXIBLE', 'POSRES', 'HEAVY_H']))
+            for s_ in secs:
+                s_['guard'] = None
+        mols.append(mol)
     return mols
 
 
@@ -722,6 +728,8 @@ def render_itp(mols, rnd, fault=None):
     applied = None
     fault_mol = rnd.randrange(len(mols)) if fault else None
     for mi, m in enumerate(mols):
+        if m.get('wrap'):
+            out.append('#%s %s' % m['wrap'])
         out += ['[ moleculetype ]', '; name nrexcl', '%s %d' % (m['name'], m['nrexcl']), '', '[ atoms ]']
         for i, a in enumerate(m['atoms'], 1):
             line = '%d %s %d %s %s %d' % (i, a['atype'], a['resid'], a['resname'], a['name'], a['cg'])
@@ -781,6 +789,8 @@ def render_itp(mols, rnd, fault=None):
         if fault == 'itp-unknown-section' and mi == fault_mol:
             out += ['[ bogus ]', '1 2 3']
             applied = fault
+        if m.get('wrap'):
+            out.append('#endif')
         if fault == 'itp-endif-without-if' and mi == fault_mol:
             out += ['#endif']
             applied = fault
@@ -829,6 +839,8 @@ def check_itp(rnd, b, fault=None):
             meta = {}
             if s['guard']:
                 meta = {s['guard'][0]: s['guard'][1]}
+            if m.get('wrap'):
+                meta = {m['wrap'][0]: m['wrap'][1]}
             for l in s['lines']:
                 exp_inter.setdefault(s['type'], []).append((tuple(x - 1 for x in l['idx']), list(l['params']), dict(meta)))
         obs_inter = {t: [(tuple(i.atoms), list(i.parameters), dict(i.meta)) for i in lst] for t, lst in blk.interactions.items() if lst}
